@@ -31,6 +31,28 @@ class Ctx:
             self.effects[cfg] = Effects(self.facts[cfg])
         return self.effects[cfg]
 
+    def lenproof(self, cfg):
+        """run the length prover over every body of configuration cfg (cached)"""
+        if not hasattr(self, "_lenproof"):
+            self._lenproof = {}
+        if cfg not in self._lenproof:
+            from .lenproof import Prover
+            from .rules import tables as T
+            F = self.facts[cfg]
+            tb = {}
+            try:
+                table, lines, body = T.extract_patterns(self, cfg)
+                only = all(all(t in ("S", "E") for t in row[0] + row[1]) for row in table.values())
+                tb["premsg_only_s_e"] = len(table) if only else 0
+                tb["psk_token_bound"] = max(len(row[2]) for row in table.values())
+            except Exception:
+                pass
+            P = Prover(F, self.eff(cfg), tables=tb)
+            for fn in F.fns():
+                P.check_fn(fn)
+            self._lenproof[cfg] = P
+        return self._lenproof[cfg]
+
     def guards(self, cfg, fn):
         key = (cfg, fn.path)
         if not hasattr(self, "_guards"):
